@@ -182,6 +182,19 @@ func (g *PG) Expr(t Ty, d int) *canon.Node {
 			f := Pick(r, fs).name
 			return li(sy("do"), g.tr(li(sy(f), li(sy("do"), li(sy("def"), sy(f), li(sy("fn"), li(sy("zz1")), canon.Ke("redefined"))), canon.In(r.Intn(5))))), g.tr(li(sy(f), canon.In(1))), g.Expr(t, d+1))
 		}
+	case 11:
+		// one let, one scope: a name bound twice in the same let is re-bound in place, so a closure made between the two
+		// bindings sees the second value, and a closure may call a name bound later in the same let
+		g.stat("let-rebinds-name")
+		x, cl, later := g.fresh("x"), g.fresh("g"), g.fresh("h")
+		e1, e2 := g.Expr(TInt, d+2), g.Expr(TInt, d+2)
+		var pat *canon.Node
+		if r.Intn(2) == 0 {
+			pat = li(sy("let"), li(sy(x), e1, sy(cl), li(sy("fn"), li(), sy(x)), sy(x), e2), li(sy("list"), li(sy(cl)), sy(x)))
+		} else {
+			pat = li(sy("let"), li(sy(x), e1, sy(cl), li(sy("fn"), li(), li(sy(later), sy(x))), sy(x), e2, sy(later), li(sy("fn"), li(sy("q")), li(sy("list"), canon.Ke("later"), sy("q")))), li(sy(cl)))
+		}
+		return li(sy("do"), g.tr(pat), g.Expr(t, d+1))
 	case 10:
 		// a closure captures a name of a scope the evaluator itself created (let, parameters, catch variable); a later
 		// let in tail position of that same scope binds the same name: the closure keeps seeing the first binding
@@ -1018,6 +1031,17 @@ func (g *PG) injectFault(forms []*canon.Node) []*canon.Node {
 				return li(f)
 			}
 			return call("apply", f, call("list", g.tr(canon.In(1))))
+		},
+		func() *canon.Node {
+			// an unbound symbol as a non-final form of a body (do, let, fn): evaluated for effect, so it fails there
+			g.stat("fault-unbound-in-statement-position")
+			switch r.Intn(3) {
+			case 0:
+				return li(sy("do"), g.mark(), sy("zz-unbound"), g.mark(), canon.In(3))
+			case 1:
+				return li(sy("let"), li(sy("lq"), canon.In(1)), g.mark(), sy("zz-unbound"), g.mark(), sy("lq"))
+			}
+			return li(li(sy("fn"), li(sy("fq")), g.mark(), sy("zz-unbound"), g.mark(), sy("fq")), canon.In(2))
 		},
 		func() *canon.Node { g.stat("fault-builtin-type"); return call("+", g.tr(canon.In(1)), canon.St("s")) },
 		func() *canon.Node { g.stat("fault-unbound-head"); return li(sy("zz-unbound-fn"), g.mark()) },
